@@ -549,6 +549,10 @@ class CallMixin:
         st.ver += 1
         post = b.clone()
         post.heap, post.ghost, post.pc = st.heap, st.ghost, st.pc
+        if k.get("ghost_local"):
+            post.ghost = dict(st.ghost)
+            for g, gs in k["ghost_local"].items():
+                post.ghost[g] = c.fresh(gs, "GL_" + g)  # existential: the callee's ensures hold for some value of its local ghost
         res = T(NONE, "none")
         rs = k.get("returns")
         if isinstance(rs, list):
